@@ -274,12 +274,6 @@ Proof. revert c; induction a as [|x a IH]; intros [|y c] H; cbn in *; try lia; a
 Lemma combine_snd {A B} (a : list A) (c : list B) : length a = length c -> map snd (combine a c) = c.
 Proof. revert c; induction a as [|x a IH]; intros [|y c] H; cbn in *; try lia; auto. f_equal. apply IH. lia. Qed.
 
-Lemma Forall_set_nth {A} (Q : A -> Prop) l i v : Forall Q l -> Q v -> Forall Q (set_nth l i v).
-Proof.
-  intros H Hv. apply Forall_forall. intros x Hx. apply set_nth_In in Hx as [->|Hx]; auto.
-  rewrite Forall_forall in H. auto.
-Qed.
-
 (* `parts[b] = parts[a]` over the tuples of one step *)
 Lemma kk_apply_spec : forall ts P,
   (forall a b, In (a, b) ts -> (a < length P)%nat /\ (b < length P)%nat) ->
